@@ -494,6 +494,22 @@ def real_discover(case, base, cfg_path):
             except Exception as e:  # noqa
                 out["exc"] = "%s: %s" % (type(e).__name__, e)
             out["files"], out["excluded"] = list(mgr.files_list), list(mgr.excluded_files)
+            # a second scanner given the SAME configuration object and no -x at all sees what a scanner with a fresh copy of that configuration sees: the first
+            # scanner's command-line exclusions are not part of the configuration (found on the unchanged tree: discover_files appended its -x entries to the list
+            # object held by the BanditConfig, so every later scanner sharing it inherited them)
+            if not out.get("exc") and x_runtime:
+                try:
+                    again = b_manager.BanditManager(conf, "file")
+                    again.discover_files(list(targets), case["recursive"], "")
+                    fresh = b_manager.BanditManager(b_config.BanditConfig(cfg_path), "file")
+                    fresh.discover_files(list(targets), case["recursive"], "")
+                    a, f = (sorted(again.files_list), sorted(again.excluded_files)), (sorted(fresh.files_list), sorted(fresh.excluded_files))
+                    out["reuse_checked"] = "config-with-exclude_dirs" if (case["cfg"] or {}).get("exclude_dirs") else "config-without-exclude_dirs"
+                    if a != f:
+                        out["reuse_diff"] = {"first_scanner_x": x_runtime, "second_scanner_sharing_the_config": {"files": a[0], "excluded": a[1]},
+                                             "scanner_with_a_fresh_config": {"files": f[0], "excluded": f[1]}}
+                except Exception as e:  # noqa
+                    out["reuse_diff"] = {"exception": "%s: %s" % (type(e).__name__, e)}
         inc = conf.get_option("include")
         out["include"] = list(inc) if isinstance(inc, list) else []
         # the config's own exclude_dirs (discover_files appends to this very list, so read the file's value)
@@ -528,6 +544,11 @@ def run_case(res, case, env, driver, count=True):
     finally:
         pass
     targets = real["targets"]
+    if real.get("reuse_checked"):
+        problems.append(("obs", "second-scanner-sharing-config:" + real["reuse_checked"], None))
+    if real.get("reuse_diff"):
+        problems.append(("violation", "a scanner's -x entries leak into the configuration object: a later scanner sharing it (and given no -x) excludes files that match no exclude "
+                         "pattern of its own", real["reuse_diff"]))
     F, E = real["files"], real["excluded"]
     inc_eff = real["include"] or ["*.py"]
     x_spec_entries = (PUBLISHED_DEFAULT_EXCLUDE if case["x"] == DEFAULT_X and not case.get("ini")
